@@ -11,6 +11,7 @@ import (
 	"fmt"
 	"os"
 	"path/filepath"
+	"sync"
 )
 
 type vfAssumeFailed struct{}
@@ -117,6 +118,12 @@ func vfGoInline(on bool)  {}
 
 // vfClockHook: under the executor f runs once at the next time.Now() of the code under test (no native effect).
 func vfClockHook(f func()) {}
+
+// vfHavocLoads: under the executor the next n atomic loads of *p return an arbitrary value each (no native effect).
+func vfHavocLoads(p *uint32, n int) {}
+
+// vfMutexHeld: under the executor, whether the running thread holds m (natively unknown: harnesses that use it have no native replay).
+func vfMutexHeld(m *sync.Mutex) bool { return true }
 
 // --- file system: the executor has an in-memory model; natively a temporary directory is used ---
 
